@@ -129,29 +129,46 @@ def run_case(job):
     return {"viol": viol, "n": 1, "keys": [(phys, dim, elem, c["kind"], c["region"], c["dens"][0], c["form"], c["stray"], c.get("dup"), tuple(c["thick"]))], "traces": 1}
 
 
-def beam_loads(ctx):
-    """Hermitian line loads on Euler-Bernoulli beams: resultant q L and moment q L^2 / 2 about the origin end."""
+def beam_loads(ctx, cases):
+    """Loads.tla BeamCases: force per unit length on straight (aligned / inclined) members, resultant 3 q and moment (9/2) t x q
+    about the origin counting nodal forces and nodal couples."""
     from EasyFEA import Models, Simulations, Mesher, ElemType
     from EasyFEA.Geoms import Domain, Point, Line
 
-    for elem in ("SEG2", "SEG3"):
-        for timo in (False, True):
-            with quiet():
-                section = Mesher().Mesh_2D(Domain(Point(-0.25, -0.125), Point(0.25, 0.125)))
-                beam = Models.Beam.Isotropic(2, Line(Point(0, 0), Point(3, 0), 0.75), section, 10.0, 0.25)
-                mesh = Mesher().Mesh_Beams([beam], elemType=ElemType(elem))
-                sim = Simulations.Beam(mesh, Models.Beam.BeamStructure([beam]), verbosity=False, useTimoshenko=timo)
-                sim.add_lineLoad(sim.mesh.nodes, [-2.0], ["y"])
-            F = sim.Bc_vector_Neumann().reshape(sim.mesh.Nn, -1)
+    fq = lambda v: np.array([float(Fr(q[0], q[1])) for q in v])
+    for case in cases:
+        c = case["cfg"]
+        dim, timo = c["dim"], c["theory"] == "Timo"
+        t, q = fq(case["t"]), fq(case["q"])
+        for elem in ("SEG2", "SEG3"):
+            tag = f"beam{dim}D/{elem}/{c['theory']}/{c['dir']}/{c['load']}"
+            try:
+                with quiet():
+                    section = Mesher().Mesh_2D(Domain(Point(-0.25, -0.125), Point(0.25, 0.125)))
+                    beam = Models.Beam.Isotropic(dim, Line(Point(0, 0, 0), Point(*(3 * t)), 0.75), section, 10.0, 0.25)
+                    mesh = Mesher().Mesh_Beams([beam], elemType=ElemType(elem))
+                    sim = Simulations.Beam(mesh, Models.Beam.BeamStructure([beam]), verbosity=False, useTimoshenko=timo)
+                    comps = [k for k in range(dim) if q[k] != 0]
+                    sim.add_lineLoad(sim.mesh.nodes, [float(q[k]) for k in comps], [["x", "y", "z"][k] for k in comps])
+                F = sim.Bc_vector_Neumann().reshape(sim.mesh.Nn, -1)
+            except Exception as ex:
+                ctx.violation(f"raises/{tag}", f"{tag}: {type(ex).__name__}: {ex}", {"case": case, "elem": elem})
+                continue
             X = sim.mesh.coord
-            Ry = F[:, 1].sum()
-            Mz = (X[:, 0] * F[:, 1]).sum() + F[:, 2].sum()
-            tag = f"beam2D/{elem}/{'Timo' if timo else 'EB'}"
-            if abs(Ry + 6.0) > 1e-10:
-                ctx.violation(f"resultant/{tag}/lineLoad", f"{tag}: uniform line load -2 over length 3 gives a resultant {Ry}, expected -6", {"elem": elem})
-            if abs(Mz + 9.0) > 1e-10:
-                ctx.violation(f"moment/{tag}/lineLoad", f"{tag}: moment of the nodal forces and couples about the origin is {Mz}, expected -9", {"elem": elem})
-            ctx.count(1, distinct_key=("beam", elem, timo))
+            force = np.zeros((sim.mesh.Nn, 3))
+            couple = np.zeros((sim.mesh.Nn, 3))
+            if dim == 2:
+                force[:, :2], couple[:, 2] = F[:, :2], F[:, 2]
+            else:
+                force, couple = F[:, :3], F[:, 3:]
+            R = force.sum(0)
+            M = np.cross(X, force).sum(0) + couple.sum(0)
+            Rexp, Mexp = fq(case["resultant"]), fq(case["moment"])
+            if np.abs(R - Rexp).max() > 1e-10 * max(1.0, np.abs(Rexp).max()):
+                ctx.violation(f"resultant/{tag}/lineLoad", f"{tag}: a force per unit length {q} (global components) over the member of length 3 along {t} gives the resultant {R}, expected {Rexp}", {"case": case, "elem": elem})
+            if np.abs(M - Mexp).max() > 1e-10 * max(1.0, np.abs(Mexp).max()):
+                ctx.violation(f"moment/{tag}/lineLoad", f"{tag}: nodal forces and couples have the moment {M} about the origin, expected {Mexp}", {"case": case, "elem": elem})
+            ctx.count(1, distinct_key=("beam", dim, elem, timo, c["dir"], c["load"]))
 
 
 def run(ctx):
@@ -166,7 +183,9 @@ def run(ctx):
         ctx._distinct.add("r2")
         return
     res = ctx.tlc_must_hold("MC_Loads", "MC_Loads.cfg", what="oracle sanity", workers=8)
-    cases = res.prints.get("CASE", [])
+    allcases = res.prints.get("CASE", [])
+    beamcases = sorted([c for c in allcases if c["cfg"]["kind"] == "beamLine"], key=lambda c: sorted(c["cfg"].items()))
+    cases = [c for c in allcases if c["cfg"]["kind"] != "beamLine"]
     e2 = ["TRI3", "TRI6", "QUAD4", "QUAD8"] + (["TRI10", "TRI15", "QUAD9"] if ctx.thorough else [])
     e3 = ["TETRA4", "HEXA8", "PRISM6"] + (["TETRA10", "HEXA20", "HEXA27", "PRISM15", "PRISM18"] if ctx.thorough else [])
     jobs = []
@@ -176,7 +195,11 @@ def run(ctx):
             if c["cfg"]["kind"] != "pressure" and (ctx.thorough or i % 3 == 0):
                 jobs.append((i, c, elem, "thermal"))
     ctx.pmap(run_case, jobs, chunksize=16)
-    beam_loads(ctx)
+    beam_loads(ctx, beamcases)
+    if not beamcases:
+        from harness.core import MachineryError
+
+        raise MachineryError('Loads.tla emitted no beam case')
     ctx.section("replay", cases=len(cases), jobs=len(jobs), element_types=e2 + e3)
     ctx.sample(cases[3])
     ctx.cov["rule"] = "every (dimension, load kind, region, density, thickness, value form, stray) state of Loads.tla replayed on every listed element type for Elastic (and Thermal); distinct = (physics, element type, state)"
